@@ -36,7 +36,7 @@ def validate_models(tier):
 HEAVY = ("c02", "c04", "c06", "c07", "c09")
 # large enumerations that the owning property already re-runs on the checked release build itself: here they alternate between the two
 # checked builds in the quick tier as well
-HEAVY_SHARDS = ("shard_limbs", "shard_scalar_hooks", "shard_big", "shard_everylen", "shard_sweep", "shard_scalar", "shard_dsm", "shard_key")
+HEAVY_SHARDS = ("shard_msglen", "shard_align", "shard_placement", "shard_limbs", "shard_scalar_hooks", "shard_big", "shard_everylen", "shard_sweep", "shard_scalar", "shard_dsm", "shard_key")
 
 
 def shards(tier):
@@ -64,7 +64,8 @@ def shards(tier):
                     continue
             keep.append(j)
         jobs = keep
-    jobs.sort(key=lambda j: (0 if j[0] in HEAVY else 1))      # long shards first
+    order = {"c09": 0, "c02": 1, "c07": 2, "c06": 3, "c04": 4}
+    jobs.sort(key=lambda j: (order.get(j[0], 9), 0 if j[1] == "shard_graph" else 1))      # long shards first
     sh = [("shard_foreign", j) for j in jobs]
     for b in BUILDS:
         sh.append(("shard_counters", b))
